@@ -360,6 +360,9 @@ func buildNum[T int | int32 | int64 | float64 | float32](s *z.NumberSchema[T], n
 	if n.Catch != nil {
 		s.Catch(numOf[T](*n.Catch))
 	}
+	if n.Req != nil && n.ReqID%2 == 0 {
+		s.Required(reqOpts(n)...) // builder calls commute: Required once more AFTER Default / Catch (last call wins, same options)
+	}
 	for _, t := range n.Tests {
 		o := t.Opts.zopts()
 		switch t.Name {
@@ -431,6 +434,9 @@ func build1(n *Node, rec *Recorder) z.ZogSchema {
 			}
 			if n.Catch != nil {
 				s.Catch(n.Catch.S)
+			}
+			if n.Req != nil && n.ReqID%2 == 0 {
+				s.Required(reqOpts(n)...) // builder calls commute: Required once more AFTER Default / Catch (last call wins, same options)
 			}
 			for _, t := range n.Tests {
 				o := t.Opts.zopts()
@@ -504,6 +510,9 @@ func build1(n *Node, rec *Recorder) z.ZogSchema {
 			if n.Catch != nil {
 				s.Catch(n.Catch.B)
 			}
+			if n.Req != nil && n.ReqID%2 == 0 {
+				s.Required(reqOpts(n)...) // builder calls commute: Required once more AFTER Default / Catch (last call wins, same options)
+			}
 			for _, t := range n.Tests {
 				switch t.Name {
 				case "booleq":
@@ -545,6 +554,9 @@ func build1(n *Node, rec *Recorder) z.ZogSchema {
 			}
 			if n.Catch != nil {
 				s.Catch(n.Catch.T)
+			}
+			if n.Req != nil && n.ReqID%2 == 0 {
+				s.Required(reqOpts(n)...) // builder calls commute: Required once more AFTER Default / Catch (last call wins, same options)
 			}
 			for _, t := range n.Tests {
 				o := t.Opts.zopts()
